@@ -623,6 +623,11 @@ def run(chk):
         if st == "ok" and not finite(V):
             chk.finding(EP_HALS, inputs_json(p, V0=V0, epsilon=eps, n_iter_max=iters), "hals_nnls returned non-finite entries on a well-conditioned problem",
                         "C13_hals_returns", observed=V)
+        # predicate (the model's hals_rejects, C13_hals_nnls_ge_eps_any_nonzero_rows): with nonzero_rows=True a zero column of U
+        # (UtU[k,k] = 0) is refused with ValueError as soon as one pass runs
+        if nz and iters >= 1 and st == "ok" and any(G[k, k] == 0 for k in range(r)):
+            chk.finding(EP_HALS, inputs_json(dict(p, G=G), V0=V0, epsilon=eps, n_iter_max=iters, nonzero_rows=True),
+                        "nonzero_rows=True and a zero diagonal entry of UtU: hals_nnls returned instead of raising ValueError", "C13_hals_rejects_zero_column", observed=V)
         # predicate (documented contract of nonzero_rows=True, a TEST -- no theorem): an updated row is not left identically zero when the
         # matrix has a positive entry at that moment (the safety value is eps(dtype) * max(V)).  Decidable from outside for a single pass
         # from a warm start: when row k is updated, the rows below it still hold their start values
@@ -1008,6 +1013,18 @@ def replay(payload):
         B = arr(inp["UtM"])
     l1, l2 = float(inp.get("l1", 0.0)), float(inp.get("l2", 0.0))
     r, n = B.shape
+    if payload.get("predicate") in ("C13_hals_rejects_zero_column", "C13_hals_nonzero_rows"):
+        # single-pass predicates on problems whose UtU may carry a zeroed diagonal entry (no reference optimum needed)
+        kw0 = dict(sparsity_coefficient=l1 or None, ridge_coefficient=l2 or None)
+        V0 = arr(inp.get("V0")); eps0 = float(inp.get("epsilon", 0.0))
+        st, V = C.call_impl(lambda: quiet(hals_nnls, B.copy(), G.copy(), V=None if V0 is None else V0.copy(), n_iter_max=1, tol=0, epsilon=eps0, nonzero_rows=True, **kw0))
+        if payload.get("predicate") == "C13_hals_rejects_zero_column":
+            msg = "returned instead of raising ValueError" if st == "ok" else None
+        else:
+            zr = [] if st != "ok" or V0 is None else [k for k in range(r - 1) if G[k, k] != 0 and float(np.max(V0[k + 1:, :])) > 0 and not np.any(V[k, :] != 0)]
+            msg = f"failed {V}" if st != "ok" else (f"row {zr[0]} identically zero with nonzero_rows=True" if zr else None)
+        print("replay:", ep, "->", msg or "holds")
+        return 1 if msg else 0
     # the optimum is recomputed with the independent reference
     p = dict(U=np.linalg.cholesky(G).T, G=G, B=B, l1=l1, l2=l2, r=r, n=n, MU=np.zeros((r, n)))
     p["Xs"] = scipy_reference(p); p["X"] = p["Xs"]
@@ -1029,14 +1046,7 @@ def replay(payload):
             msg = f"raised {V}" if st != "ok" else check_point(p, V, eps, "fista")
     else:
         kw = dict(sparsity_coefficient=l1 or None, ridge_coefficient=l2 or None)
-        if pred == "C13_hals_nonzero_rows":
-            V0 = arr(inp.get("V0"))
-            st, V = C.call_impl(lambda: quiet(hals_nnls, B.copy(), G.copy(), V=V0.copy(), n_iter_max=1, tol=0, epsilon=eps, nonzero_rows=True, **kw))
-            msg = f"failed {V}" if st != "ok" else None
-            if st == "ok":
-                zr = [k for k in range(r - 1) if G[k, k] != 0 and float(np.max(V0[k + 1:, :])) > 0 and not np.any(V[k, :] != 0)]
-                msg = f"row {zr[0]} identically zero with nonzero_rows=True" if zr else None
-        elif pred in ("C13_hals_iterates_ge_eps", "C13_hals_returns") and not default and "n_iter_max" in inp:
+        if pred in ("C13_hals_iterates_ge_eps", "C13_hals_returns") and not default and "n_iter_max" in inp:
             st, V = C.call_impl(lambda: quiet(hals_nnls, B.copy(), G.copy(), V=arr(inp.get("V0")), n_iter_max=int(inp.get("n_iter_max", 1)), tol=0, epsilon=eps, **kw))
             msg = f"failed {V}" if st != "ok" else (f"non-finite or below epsilon {np.min(V)}" if not finite(V) or (int(inp.get("n_iter_max", 1)) > 0 and np.min(V) < eps) else None)
         elif default:
